@@ -32,18 +32,41 @@ SPEC = dict(
                              bound='default-constructed configuration (disabled = {PLAIN} from the constructor), offer list of exactly %d names' % o) for o in (1, 2, 3)]
                         + [I('mismatch_sasl1_o%d' % o, 'h_mismatch_sasl1', cdefs=od(o, 2), mem_gb=4, tiers=Q if o == 3 else T,
                              bound='SaslManager::authenticate, offer list of exactly %d names, nothing permitted' % o) for o in (0, 2, 3)]
-                        + [I('mismatch_sasl2_o%d_f%d' % (o, f), 'h_mismatch_sasl2', cdefs=dict(od(o, 2), C05_FASTBITS=f), object_bits=12, mem_gb=4, tiers=Q if (o, f) == (3, 7) else T,
+                        + [I('mismatch_sasl2_o%d_f%d' % (o, f), 'h_mismatch_sasl2', cdefs=dict(od(o, 2), C05_FASTBITS=f), object_bits=12, mem_gb=4, tiers=Q if (o, f) == (3, 5) else T,
                              bound='Sasl2Manager::authenticate, %d names of which the last one inside <fast/>, FAST bits %d (1 server offers fast, 2 enabled in config, 4 user agent set), nothing permitted' % (o, f)) for o in (1, 3) for f in (7, 6, 5, 3, 0)],
           CUT, shadow=True),
+        G('tostring', [I('tostring', 'h_tostring', unwind=4, mem_gb=4, bound='the 10 non-HT mechanism rows of the table, symbolic row index')], ['qt_core.c', 'qt_list.c', 'models.c']),
         # composition check without the cut: real parser inside the real choice
         G('e2e', [I('e2e_o1_d1', 'h_choose', cdefs=od(1, 1), mem_gb=4, bound='uncut, offer list of exactly 1 name, 1 disabled name'),
                   I('e2e_o2_d2', 'h_choose', cdefs=od(2, 2), tiers=T, mem_gb=14, timeout_s=1500, bound='uncut, offer list of exactly 2 names, 2 disabled names'),
                   I('alias_bypass', 'h_alias_bypass', cdefs=od(1, 1), mem_gb=2.5, bound='concrete: offer ["HT-SHA-256SHA-384-NONE"], disabled ["HT-SHA-384-NONE"], token HT-SHA-384-NONE')],
           BASE),
     ],
-    bounds=[], assumptions=[], outside=[],
+    bounds=[
+        'offer list: exactly 0, 1, 2 or 3 names (one instance per length), every ordering, duplicates allowed',
+        'disabled list: exactly 0, 1 or 2 names (one instance per length); quick tier: 2 names with offers of 1-3, 0 names with the empty offer',
+        'every name (offered, disabled, preferred) is any row of a 53-row table: 38 mechanism names (SCRAM-SHA-1/-256/-512/SHA3-512, DIGEST-MD5, PLAIN, ANONYMOUS, X-FACEBOOK-PLATFORM, X-MESSENGER-OAUTH2, X-OAUTH2, all 28 HT-<7 hashes>-<NONE|ENDP|UNIQ|EXPR>) and 15 names that are not mechanisms (empty, wrong case, unknown hash, truncated, trailing garbage, "HT-SHA-256SHA-384-NONE")',
+        'preferred mechanism: none or any table row',
+        'credentials: password present/absent, facebook token and app id, windows-live token, google token each present/absent, HT token absent or bound to any of the 28 HT mechanisms',
+        'SASL 2 mismatch instances: the last offered name arrives inside <fast/>; server-offers-fast / FAST enabled / user agent set are constants of the instance (5 of the 8 combinations)',
+        'end-to-end (uncut) composition: 1 offered name + 1 disabled name in quick, 2 + 2 in thorough',
+        'strings are at most 24 UTF-16 units (longest table name 22)',
+    ],
+    assumptions=[
+        'ASSUME-GUARANTEE CUT (groups choose_cut): SaslMechanism::fromString is replaced by its specification on table names (c05_cut.c); the specification is exactly what instance parse_table proves for the REAL function on every table row; the cut refuses any argument that is not one whole table name; instances e2e_* run the real parser inside the real choice without the cut',
+        'std::views::filter/transform: clang-14 cannot compile libstdc++-12 <ranges>; c05_ranges.h is an EAGER stand-in (each element of the container is pushed once, in order, through the stages; begin()/end() are pointers into a buffer of <= 6 results). Equivalent to the lazy views for the sequence of values as long as predicates do not depend on how often they run (isEnabled only collects names for the log text)',
+        'class-level container models (Qt / libstdc++ inline code replaced by contract): QList<QString> default constructor, append, node_destruct (all string data static, asserted); std::__find_if over const QString* (QList::contains); std::allocator<SaslMechanism>::allocate and _Vector_base::_M_allocate with fixed capacity 6 (asserted)',
+        'string boundary (c05_str.c): QString::operator=, operator==, QtPrivate::startsWith/compareStrings/equalStrings as straight-line kernels over <= 24 units (asserted); QString::arg / QStringList join (log and error TEXT) are identity / empty',
+        'QNetworkProxy, QSslCertificate, QDateTime are opaque 8-byte values (carried by the configuration, never inspected by the choice)',
+        'credential CONTENTS are a fixed non-empty literal: the choice only tests emptiness',
+        'mismatch instances: QXmppTask/QXmppPromise shadow (contract proven by C13); QXmppSaslClient::create is cut to "count the call, return no client" - creating a client when nothing qualifies is itself reported as a violation; the socket is a harness SendDataInterface that counts sendData calls',
+    ],
+    outside=[
+        'offers longer than 3 names, disabled lists longer than 2, names outside the table (arbitrary strings)',
+        'relative order of the X-FACEBOOK-PLATFORM / X-MESSENGER-OAUTH2 / X-OAUTH2 mechanisms against the others: the property statement does not rank them, so only membership (offered, enabled, usable) is asserted when one of them is chosen',
+        'SASL 2 / FAST positive path: that a name offered only inside <fast/> is used when FAST is in use and that auth.fast is set (needs the SASL client objects - C06 territory); FAST is covered for the "nothing qualifies" direction only',
+        'FastTokenManager::onSasl2Authenticate (which HT mechanism a NEW token is requested for)',
+        'SaslHtMechanism::toString (HT names on the wire): channelBindingTypeToString compiles to llvm.load.relative, unsupported by the translator; toString is checked for the 10 non-HT mechanisms (instance tostring)',
+        'the text of the log / error messages (disabledAvailable list contents)',
+    ],
 )
-if os.environ.get('C05_DEBUG'):
-    SPEC['groups'] += [
-        G('dbg', [I('dbg%s' % i, 'h_dbg%s' % i, cdefs=od(1, 2), unwind=2) for i in 'ABC'], BASE, VP_DEBUG_ENTRIES=1),
-        G('dbgcut', [I('dbg%s' % i, 'h_dbg%s' % i, cdefs=od(1, 2), unwind=2) for i in 'DEFGH'], CUT, VP_DEBUG_ENTRIES=1)]
